@@ -23,9 +23,11 @@ import (
 	"verif/engine/symgo"
 )
 
+var repoDir = "/repo" // overridable with $VX_REPO (development: run the checks against a scratch worktree)
+
+var verifDir = "/verif" // overridable with $VX_VERIF (background runs from a snapshot of /verif)
+
 const (
-	repoDir  = "/repo"
-	verifDir = "/verif"
 	goBin    = "/root/go/pkg/mod/golang.org/toolchain@v0.0.1-go1.25.0.linux-amd64/bin"
 )
 
@@ -219,6 +221,12 @@ type confirmed struct {
 
 func main() {
 	setupEnv()
+	if r := os.Getenv("VX_REPO"); r != "" {
+		repoDir = r
+	}
+	if r := os.Getenv("VX_VERIF"); r != "" {
+		verifDir = r
+	}
 	if len(os.Args) < 2 {
 		fmt.Fprintln(os.Stderr, "usage: vx check|run ...")
 		os.Exit(2)
@@ -618,6 +626,9 @@ func cmdCheck(args []string) int {
 }
 
 func writeEvidence(spec *CheckSpec, tier string, reports []*harnessReport, inconclusive []string, violations int, knownSeen map[string]bool, wall time.Duration) {
+	if os.Getenv("VERIF_NOEVIDENCE") != "" {
+		return // development runs against scratch worktrees must not touch /verif/evidence
+	}
 	states, transitions, queries, sat, unsat, unknown, validated := 0, 0, 0, 0, 0, 0, 0
 	var instrs int64
 	var solverT time.Duration
